@@ -212,3 +212,1179 @@ Lemma source_tie_proved :
   src_remove_log_order = true /\ src_save_raft_state_before_process_snapshot = true /\
   src_snapshot_update_not_fast_applied = true.
 Proof. repeat split; reflexivity. Qed.
+
+(* ====================================================================== *)
+(* PART 1 — the apply path                                                  *)
+(* ====================================================================== *)
+
+Section RsmProofs.
+Context {S result : Type}.
+Variable sm_update : S -> bytes -> S * result.
+Variable norm : Membership.addr -> Membership.addr.
+
+Notation state := (@state S result).
+Notation event := (@event result).
+Notation apply_entry := (@apply_entry S result sm_update norm).
+Notation apply_app := (@apply_app S result sm_update).
+Notation apply_cc := (@apply_cc S result norm).
+Notation run_entries := (@run_entries S result sm_update norm).
+Notation apply_task := (@apply_task S result sm_update norm).
+Notation run_tasks := (@run_tasks S result sm_update norm).
+Notation sess_inv := (@Proofs.Session.inv S result).
+
+(* ---- vocabulary --------------------------------------------------------- *)
+
+(* the log: entry number i (from 1) has index base + i *)
+Fixpoint contiguous (base : N) (es : list (@entry)) : Prop :=
+  match es with
+  | [] => True
+  | e :: r => en_index e = base + 1 /\ contiguous (base + 1) r
+  end.
+
+(* raft terms: at least 1, never decreasing along the log *)
+Fixpoint terms_ok (t : N) (es : list (@entry)) : Prop :=
+  match es with
+  | [] => True
+  | e :: r => 0 < en_term e /\ t <= en_term e /\ terms_ok (en_term e) r
+  end.
+
+(* between two tasks lastApplied equals (index, term) *)
+Definition synced (st : state) : Prop :=
+  r_last_index st = r_index st /\ r_last_term st = r_term st.
+
+Definition sync (st : state) : state := with_last st (r_index st) (r_term st).
+
+(* the session table invariant of C05 + a usable capacity *)
+Definition tab_ok (st : state) : Prop :=
+  sess_inv (Session.mkState (r_tab st) (r_sm st)) /\ 0 < Session.t_cap (r_tab st).
+
+Definition map_state {A} (f : state -> state) (r : res (state * A)) : res (state * A) :=
+  match r with Ok (s, a) => Ok (f s, a) | Err e => Err e end.
+
+(* ---- the fields the entry path does not read ----------------------------- *)
+
+Ltac crunch :=
+  repeat (cbn -[N.add N.eqb N.ltb N.leb N.sub N.of_nat];
+          match goal with
+          | |- context [if ?b then _ else _] => destruct b eqn:?
+          | |- context [match ?x with _ => _ end] => destruct x eqn:?
+          end);
+  cbn -[N.add N.eqb N.ltb N.leb N.sub N.of_nat]; try reflexivity.
+
+Lemma apply_entry_with_last : forall cfg st e i t,
+  apply_entry cfg (with_last st i t) e = map_state (fun s => with_last s i t) (apply_entry cfg st e).
+Proof.
+  intros cfg [sm tab mem idx tm li lt odi od ssi] e i t.
+  unfold RsmApply.apply_entry, RsmApply.apply_app, RsmApply.apply_cc, set_applied, set_on_disk_index,
+    entry_in_init_disk_sm, bind, with_last, with_applied, with_sess, with_mem, with_od, map_state.
+  cbn [r_sm r_tab r_mem r_index r_term r_last_index r_last_term r_od_init r_od r_ss_index].
+  destruct (en_body e) as [se|c].
+  - destruct (is_update_kind (Session.classify se) && (if c_ondisk cfg then en_index e <=? odi else false)).
+    + crunch.
+    + destruct (Session.step sm_update (Session.mkState tab sm) se) as [sst o]. destruct o; crunch.
+  - destruct (Membership.handle norm (c_ordered cfg) mem c (en_index e)); crunch.
+Qed.
+
+Lemma apply_entry_with_ss_index : forall cfg st e i,
+  apply_entry cfg (with_ss_index st i) e = map_state (fun s => with_ss_index s i) (apply_entry cfg st e).
+Proof.
+  intros cfg [sm tab mem idx tm li lt odi od ssi] e i.
+  unfold RsmApply.apply_entry, RsmApply.apply_app, RsmApply.apply_cc, set_applied, set_on_disk_index,
+    entry_in_init_disk_sm, bind, with_ss_index, with_applied, with_sess, with_mem, with_od, map_state.
+  cbn [r_sm r_tab r_mem r_index r_term r_last_index r_last_term r_od_init r_od r_ss_index].
+  destruct (en_body e) as [se|c].
+  - destruct (is_update_kind (Session.classify se) && (if c_ondisk cfg then en_index e <=? odi else false)).
+    + crunch.
+    + destruct (Session.step sm_update (Session.mkState tab sm) se) as [sst o]. destruct o; crunch.
+  - destruct (Membership.handle norm (c_ordered cfg) mem c (en_index e)); crunch.
+Qed.
+
+Lemma run_entries_with_last : forall cfg es st i t,
+  run_entries cfg (with_last st i t) es = map_state (fun s => with_last s i t) (run_entries cfg st es).
+Proof.
+  induction es as [|e r IH]; intros st i t; [reflexivity|].
+  cbn [RsmApply.run_entries]. rewrite apply_entry_with_last.
+  destruct (apply_entry cfg st e) as [[s1 ev]|x]; cbn [map_state bind fst snd]; [|reflexivity].
+  rewrite IH. destruct (run_entries cfg s1 r) as [[s2 evs]|x]; reflexivity.
+Qed.
+
+Lemma run_entries_with_ss_index : forall cfg es st i,
+  run_entries cfg (with_ss_index st i) es = map_state (fun s => with_ss_index s i) (run_entries cfg st es).
+Proof.
+  induction es as [|e r IH]; intros st i; [reflexivity|].
+  cbn [RsmApply.run_entries]. rewrite apply_entry_with_ss_index.
+  destruct (apply_entry cfg st e) as [[s1 ev]|x]; cbn [map_state bind fst snd]; [|reflexivity].
+  rewrite IH. destruct (run_entries cfg s1 r) as [[s2 evs]|x]; reflexivity.
+Qed.
+
+(* ---- what one entry does to the bookkeeping ------------------------------- *)
+
+Lemma set_applied_ok : forall (st st' : state) i t,
+  set_applied st i t = Ok st' ->
+  i = r_index st + 1 /\ r_term st <= t /\ st' = with_applied st i t.
+Proof.
+  intros st st' i t. unfold set_applied.
+  destruct (negb (r_index st + 1 =? i)) eqn:A; [discriminate|].
+  destruct (t <? r_term st) eqn:B; [discriminate|]. intros H; inversion H; subst.
+  repeat split; lia.
+Qed.
+
+Lemma step_cap : forall (sst : @Session.state S result) se,
+  Session.t_cap (Session.st_tab (fst (Session.step sm_update sst se))) = Session.t_cap (Session.st_tab sst).
+Proof.
+  intros [t sm] e. unfold Session.step. cbn [Session.st_tab Session.st_sm].
+  destruct (Session.classify e); cbn; auto.
+  - unfold Session.register, Session.lru_get, Session.lru_add. cbn [Session.s_client Session.new_session].
+    destruct (Session.lru_find (Session.e_client e) (Session.t_list t)) as [[? ?]|]; cbn; auto.
+  - unfold Session.unregister, Session.lru_get, Session.lru_del.
+    destruct (Session.lru_find (Session.e_client e) (Session.t_list t)) as [[? ?]|] eqn:F; cbn; auto.
+    destruct (Proofs.Session.lru_find_some _ _ _ _ F) as (? & ? & _ & _ & <- & _). now rewrite N.eqb_refl.
+  - destruct (sm_update sm (Session.e_cmd e)); auto.
+  - unfold Session.update_session, Session.lru_get. cbn [Session.st_tab Session.st_sm].
+    destruct (Session.lru_find (Session.e_client e) (Session.t_list t)) as [[? ?]|]; cbn; auto.
+    destruct (Session.has_responded _ _); cbn; auto.
+    destruct (Session.hist_get _ _); cbn; auto.
+    destruct (sm_update sm (Session.e_cmd e)). destruct (Session.add_response _ _ _); cbn; auto.
+Qed.
+
+Ltac splits := repeat match goal with |- _ /\ _ => split end.
+Ltac fin := repeat split; auto; try lia; try (left; lia).
+
+(* the shape of a successful entry *)
+Lemma apply_entry_shape : forall cfg (st st' : state) e ev,
+  apply_entry cfg st e = Ok (st', ev) ->
+  en_index e = r_index st + 1 /\ r_term st <= en_term e /\
+  r_index st' = en_index e /\ r_term st' = en_term e /\
+  r_last_index st' = r_last_index st /\ r_last_term st' = r_last_term st /\
+  r_od_init st' = r_od_init st /\ r_ss_index st' = r_ss_index st /\
+  (c_ondisk cfg = false -> r_od st' = r_od st) /\
+  (r_od st <= r_od st' \/ c_ondisk cfg = false) /\
+  ((r_tab st' = r_tab st /\ r_sm st' = r_sm st) \/
+   exists se, en_body e = BApp se /\
+     Session.mkState (r_tab st') (r_sm st') =
+       fst (Session.step sm_update (Session.mkState (r_tab st) (r_sm st)) se)).
+Proof.
+  intros cfg st st' e ev. unfold RsmApply.apply_entry.
+  destruct (en_body e) as [se|c] eqn:B.
+  - unfold RsmApply.apply_app.
+    destruct (is_update_kind (Session.classify se) && entry_in_init_disk_sm cfg st (en_index e)).
+    + unfold bind. destruct (set_applied st (en_index e) (en_term e)) as [s1|] eqn:A; [|discriminate].
+      intros H; inversion H; subst. apply set_applied_ok in A. destruct A as (A1 & A2 & ->).
+      destruct st; cbn in *. fin.
+    + destruct (Session.step sm_update (Session.mkState (r_tab st) (r_sm st)) se) as [sst o] eqn:St.
+      assert (G : forall s1, bind (if called_user_sm o then set_on_disk_index cfg (with_sess st (Session.st_tab sst) (Session.st_sm sst)) (en_index e) (en_index e)
+                                   else Ok (with_sess st (Session.st_tab sst) (Session.st_sm sst)))
+                    (fun st2 => bind (set_applied st2 (en_index e) (en_term e)) (fun st3 => Ok (st3, EvApp o))) = Ok (s1, ev) ->
+                  en_index e = r_index st + 1 /\ r_term st <= en_term e /\
+                  r_index s1 = en_index e /\ r_term s1 = en_term e /\
+                  r_last_index s1 = r_last_index st /\ r_last_term s1 = r_last_term st /\
+                  r_od_init s1 = r_od_init st /\ r_ss_index s1 = r_ss_index st /\
+                  (c_ondisk cfg = false -> r_od s1 = r_od st) /\
+                  (r_od st <= r_od s1 \/ c_ondisk cfg = false) /\
+                  r_tab s1 = Session.st_tab sst /\ r_sm s1 = Session.st_sm sst).
+      { intros s1. unfold bind.
+        destruct (called_user_sm o).
+        - unfold set_on_disk_index. destruct (negb (c_ondisk cfg)) eqn:OD.
+          + destruct (set_applied _ _ _) as [s3|] eqn:A; [|discriminate]. intros H; inversion H; subst.
+            apply set_applied_ok in A. destruct A as (A1 & A2 & ->). destruct st; cbn in *.
+            fin; try (right; destruct (c_ondisk cfg); auto; discriminate).
+          + destruct (en_index e <? en_index e); [discriminate|].
+            cbn [with_sess r_od_init r_od].
+            destruct (en_index e <=? r_od_init st) eqn:X1; [discriminate|].
+            destruct (en_index e <=? r_od st) eqn:X2; [discriminate|].
+            destruct (set_applied _ _ _) as [s3|] eqn:A; [|discriminate]. intros H; inversion H; subst.
+            apply set_applied_ok in A. destruct A as (A1 & A2 & ->). destruct st; cbn in *.
+            fin; try (intros F; rewrite F in OD; discriminate).
+        - destruct (set_applied _ _ _) as [s3|] eqn:A; [|discriminate]. intros H; inversion H; subst.
+          apply set_applied_ok in A. destruct A as (A1 & A2 & ->). destruct st; cbn in *.
+          fin. }
+      intros H.
+      assert (H' : bind (if called_user_sm o then set_on_disk_index cfg (with_sess st (Session.st_tab sst) (Session.st_sm sst)) (en_index e) (en_index e)
+                         else Ok (with_sess st (Session.st_tab sst) (Session.st_sm sst)))
+                    (fun st2 => bind (set_applied st2 (en_index e) (en_term e)) (fun st3 => Ok (st3, EvApp o))) = Ok (st', ev)).
+      { destruct o; try exact H. discriminate. }
+      apply G in H'. destruct H' as (a & b & c & d & f & g & h & i & j & k & l & m).
+      repeat split; auto. right. exists se. split; auto. rewrite St. cbn [fst].
+      rewrite l, m. destruct sst; reflexivity.
+  - unfold RsmApply.apply_cc. destruct (Membership.handle norm (c_ordered cfg) (r_mem st) c (en_index e)) as [m'|r|t];
+      unfold bind; try discriminate.
+    + destruct (set_applied _ _ _) as [s3|] eqn:A; [|discriminate]. intros H; inversion H; subst.
+      apply set_applied_ok in A. destruct A as (A1 & A2 & ->). destruct st; cbn in *.
+      fin.
+    + destruct (set_applied _ _ _) as [s3|] eqn:A; [|discriminate]. intros H; inversion H; subst.
+      apply set_applied_ok in A. destruct A as (A1 & A2 & ->). destruct st; cbn in *.
+      fin.
+Qed.
+
+Lemma apply_entry_tab_ok : forall cfg (st st' : state) e ev,
+  apply_entry cfg st e = Ok (st', ev) -> tab_ok st -> tab_ok st'.
+Proof.
+  intros cfg st st' e ev H [I C]. apply apply_entry_shape in H.
+  destruct H as (_ & _ & _ & _ & _ & _ & _ & _ & _ & _ & [[E1 E2]|(se & _ & E)]).
+  - unfold tab_ok. rewrite E1, E2. split; auto.
+  - unfold tab_ok. rewrite E. split.
+    + apply Proofs.Session.step_inv. exact I.
+    + pose proof (step_cap (Session.mkState (r_tab st) (r_sm st)) se) as K.
+      rewrite <- E in K. cbn [Session.st_tab] in K. rewrite K. exact C.
+Qed.
+
+(* ---- runs ----------------------------------------------------------------- *)
+
+Definition run_sync cfg (st : state) es : res (state * list event) :=
+  match run_entries cfg st es with Ok (s, evs) => Ok (sync s, evs) | Err e => Err e end.
+
+Lemma run_entries_app : forall cfg a b (st : state),
+  run_entries cfg st (a ++ b) =
+  bind (run_entries cfg st a) (fun p =>
+    bind (run_entries cfg (fst p) b) (fun q => Ok (fst q, snd p ++ snd q))).
+Proof.
+  induction a as [|e r IH]; intros b st.
+  - cbn. destruct (run_entries cfg st b) as [[s evs]|x]; reflexivity.
+  - cbn [app RsmApply.run_entries]. destruct (apply_entry cfg st e) as [[s1 ev]|x]; cbn [bind fst snd]; [|reflexivity].
+    rewrite IH. destruct (run_entries cfg s1 r) as [[s2 evs]|x]; cbn [bind fst snd]; [|reflexivity].
+    destruct (run_entries cfg s2 b) as [[s3 evs']|x]; reflexivity.
+Qed.
+
+Fixpoint terms_mono (t : N) (es : list (@entry)) : Prop :=
+  match es with
+  | [] => True
+  | e :: r => t <= en_term e /\ terms_mono (en_term e) r
+  end.
+
+Lemma run_entries_shape : forall cfg es (st st' : state) evs,
+  run_entries cfg st es = Ok (st', evs) ->
+  contiguous (r_index st) es /\ terms_mono (r_term st) es /\
+  r_index st' = r_index st + nlen es /\ r_term st <= r_term st' /\
+  r_last_index st' = r_last_index st /\ r_last_term st' = r_last_term st /\
+  r_od_init st' = r_od_init st /\ r_ss_index st' = r_ss_index st /\
+  (c_ondisk cfg = false -> r_od st' = r_od st) /\
+  (tab_ok st -> tab_ok st') /\ length evs = length es.
+Proof.
+  induction es as [|e r IH]; intros st st' evs H.
+  - cbn in H. inversion H; subst. unfold nlen. cbn [contiguous terms_mono length]. splits; auto; lia.
+  - cbn [RsmApply.run_entries] in H.
+    destruct (apply_entry cfg st e) as [[s1 ev]|x] eqn:A; cbn [bind fst snd] in H; [|discriminate].
+    destruct (run_entries cfg s1 r) as [[s2 evs2]|x] eqn:R; cbn [bind fst snd] in H; [|discriminate].
+    inversion H; subst. pose proof (apply_entry_tab_ok _ _ _ _ _ A) as T.
+    apply apply_entry_shape in A. destruct A as (a1 & a2 & a3 & a4 & a5 & a6 & a7 & a8 & a9 & _).
+    apply IH in R. destruct R as (b1 & b2 & b3 & b4 & b5 & b6 & b7 & b8 & b9 & b10 & b11).
+    unfold nlen in *. cbn [contiguous terms_mono length].
+    rewrite a3, a1 in b1. rewrite a4 in b2.
+    splits; auto; try lia; try (intros F; rewrite b9, a9; auto); try (cbn; lia).
+Qed.
+
+Lemma sync_id : forall st : state, synced st -> sync st = st.
+Proof. intros [] [A B]. cbn in *. subst. reflexivity. Qed.
+
+Lemma sync_synced : forall st : state, synced (sync st).
+Proof. intros []. split; reflexivity. Qed.
+
+Lemma check_batch_ok : forall cfg r (s1 st' : state) evs,
+  run_entries cfg s1 r = Ok (st', evs) ->
+  Forall (fun e => 0 < en_term e) r ->
+  check_batch (r_index s1) (r_term s1) r = Ok (r_index st', r_term st').
+Proof.
+  induction r as [|e r IH]; intros s1 st' evs H F.
+  - cbn in H. inversion H; subst. reflexivity.
+  - cbn [RsmApply.run_entries] in H.
+    destruct (apply_entry cfg s1 e) as [[s2 ev]|x] eqn:A; cbn [bind fst snd] in H; [|discriminate].
+    destruct (run_entries cfg s2 r) as [[s3 evs3]|x] eqn:R; cbn [bind fst snd] in H; [|discriminate].
+    inversion H; subst. inversion F; subst.
+    apply apply_entry_shape in A. destruct A as (a1 & a2 & a3 & a4 & _).
+    cbn [check_batch].
+    destruct ((en_index e =? 0) || (en_term e =? 0)) eqn:Z; [lia|].
+    destruct (negb (en_index e =? r_index s1 + 1)) eqn:G; [lia|].
+    destruct (en_term e <? r_term s1) eqn:T; [lia|].
+    rewrite <- a3, <- a4. eapply IH; eauto.
+Qed.
+
+Lemma set_last_applied_ok : forall cfg es (st st' : state) evs,
+  run_entries cfg st es = Ok (st', evs) -> synced st ->
+  Forall (fun e => 0 < en_term e) es ->
+  set_last_applied st' es = Ok (sync st').
+Proof.
+  intros cfg [|e r] st st' evs H [S1 S2] F.
+  - cbn in H. inversion H; subst. cbn. f_equal. symmetry. apply sync_id. split; auto.
+  - pose proof (run_entries_shape _ _ _ _ _ H) as (_ & _ & _ & _ & L1 & L2 & _).
+    cbn [RsmApply.run_entries] in H.
+    destruct (apply_entry cfg st e) as [[s2 ev]|x] eqn:A; cbn [bind fst snd] in H; [|discriminate].
+    destruct (run_entries cfg s2 r) as [[s3 evs3]|x] eqn:R; cbn [bind fst snd] in H; [|discriminate].
+    inversion H; subst. inversion F; subst.
+    pose proof (check_batch_ok _ _ _ _ _ R H3) as CB.
+    apply apply_entry_shape in A. destruct A as (a1 & a2 & a3 & a4 & _).
+    rewrite a3, a4 in CB.
+    unfold set_last_applied.
+    destruct ((en_index e =? 0) || (en_term e =? 0)) eqn:Z; [lia|].
+    rewrite CB. cbn [bind fst snd].
+    destruct (negb (r_last_index st' + 1 =? en_index e)) eqn:G; [lia|].
+    destruct (en_term e <? r_last_term st') eqn:T; [lia|].
+    reflexivity.
+Qed.
+
+Lemma contiguous_last : forall es base f,
+  contiguous base (f :: es) -> en_index (last (f :: es) f) = base + nlen (f :: es).
+Proof.
+  induction es as [|e r IH]; intros base f [A B].
+  - unfold nlen. cbn. lia.
+  - destruct B as [B1 B2].
+    change (last (f :: e :: r) f) with (last (e :: r) f).
+    assert (L : last (e :: r) f = last (e :: r) e).
+    { clear. revert e. induction r as [|x r IH]; intros e; [reflexivity|].
+      change (last (e :: x :: r) f) with (last (x :: r) f).
+      change (last (e :: x :: r) e) with (last (x :: r) e).
+      rewrite IH. symmetry. destruct r; [reflexivity|]. 
+      change (last (x :: e0 :: r) e) with (last (e0 :: r) e).
+      change (last (x :: e0 :: r) x) with (last (e0 :: r) x).
+      clear. revert e0. induction r as [|y r IH]; intros e0; [reflexivity|].
+      change (last (e0 :: y :: r) e) with (last (y :: r) e).
+      change (last (e0 :: y :: r) x) with (last (y :: r) x). apply IH. }
+    rewrite L, (IH (base + 1) e); [|split; auto].
+    unfold nlen. cbn [length]. lia.
+Qed.
+
+Lemma contiguous_skipn : forall n base es,
+  contiguous base es -> contiguous (base + N.of_nat (min n (length es))) (skipn n es).
+Proof.
+  induction n as [|n IH]; intros base es C.
+  - cbn [skipn min]. replace (base + N.of_nat 0) with base by lia. exact C.
+  - destruct es as [|e r]; cbn [skipn length min].
+    + exact I.
+    + destruct C as [C1 C2]. apply IH in C2.
+      replace (base + N.of_nat (Datatypes.S (min n (length r)))) with (base + 1 + N.of_nat (min n (length r))) by lia.
+      exact C2.
+Qed.
+
+Lemma contiguous_firstn : forall n base es, contiguous base es -> contiguous base (firstn n es).
+Proof.
+  induction n as [|n IH]; intros base es C; [exact I|].
+  destruct es as [|e r]; [exact I|]. destruct C as [C1 C2]. cbn. split; auto.
+Qed.
+
+Lemma contiguous_app : forall a b base,
+  contiguous base (a ++ b) <-> contiguous base a /\ contiguous (base + nlen a) b.
+Proof.
+  induction a as [|e r IH]; intros b base; unfold nlen in *; cbn [app contiguous length].
+  - rewrite N.add_0_r. tauto.
+  - rewrite IH. replace (base + 1 + N.of_nat (length r)) with (base + N.of_nat (Datatypes.S (length r))) by lia. tauto.
+Qed.
+
+Lemma forall_skipn : forall {A} (P : A -> Prop) n l, Forall P l -> Forall P (skipn n l).
+Proof.
+  induction n as [|n IH]; intros l F; [exact F|]. destruct l; [constructor|]. inversion F; subst. cbn. auto.
+Qed.
+
+Lemma forall_firstn : forall {A} (P : A -> Prop) n l, Forall P l -> Forall P (firstn n l).
+Proof.
+  induction n as [|n IH]; intros l F; [constructor|]. destruct l; [constructor|]. inversion F; subst. cbn. auto.
+Qed.
+
+(* pb.EntriesToApply on a gap-free batch that starts at or below the next index:
+   the already applied prefix is dropped, the hole panic is not reached *)
+Lemma entries_to_apply_contiguous : forall t base a,
+  contiguous base t -> base <= a ->
+  entries_to_apply t a = Ok (skipn (N.to_nat (a - base)) t).
+Proof.
+  intros t base a C LE. destruct t as [|f r]; [now rewrite skipn_nil|].
+  unfold entries_to_apply. rewrite (contiguous_last r base f C).
+  destruct C as [C1 C2]. rewrite C1.
+  destruct (base + nlen (f :: r) <=? a) eqn:Old.
+  - rewrite skipn_all2; [reflexivity|]. unfold nlen in Old. lia.
+  - destruct (a + 1 <? base + 1) eqn:Hole; [lia|].
+    replace (a + 1 - (base + 1)) with (a - base) by lia.
+    destruct (a - base <? nlen (f :: r)) eqn:K; [reflexivity|]. unfold nlen in *. lia.
+Qed.
+
+(* one task = the not yet applied part of its batch, entry by entry *)
+Lemma apply_task_eq : forall cfg t base (st : state),
+  contiguous base t -> base <= r_index st ->
+  Forall (fun e => 0 < en_term e) t -> synced st ->
+  apply_task cfg st t = run_sync cfg st (skipn (N.to_nat (r_index st - base)) t).
+Proof.
+  intros cfg t base st C LE F SY. unfold RsmApply.apply_task, run_sync.
+  rewrite (entries_to_apply_contiguous t base (r_index st) C LE). cbn [bind].
+  set (es := skipn (N.to_nat (r_index st - base)) t).
+  destruct (run_entries cfg st es) as [[s evs]|x] eqn:R; cbn [bind fst snd]; [|reflexivity].
+  rewrite (set_last_applied_ok cfg es st s evs R SY); [reflexivity|].
+  apply forall_skipn, F.
+Qed.
+
+(* ---- deliveries ------------------------------------------------------------ *)
+
+(* How raft hands a log [es] to the apply path: a sequence of tasks, each a
+   segment of the log that starts at or below the first entry the replica has
+   not applied yet (re-delivery of applied entries is allowed: restart,
+   snapshot recovery), of any length. [pos] = number of entries applied. *)
+Inductive delivery (es : list (@entry)) : nat -> list (list (@entry)) -> nat -> Prop :=
+| d_nil : forall pos, delivery es pos [] pos
+| d_cons : forall pos start len ts final,
+    (start <= pos)%nat ->
+    delivery es (Nat.max pos (Nat.min (start + len) (length es))) ts final ->
+    delivery es pos (firstn len (skipn start es) :: ts) final.
+
+Lemma delivery_bounds : forall es pos ts final,
+  delivery es pos ts final -> (pos <= length es)%nat -> (pos <= final <= length es)%nat.
+Proof.
+  intros es pos ts final D. induction D as [pos|pos start len ts final Hs D IH]; intros L; [lia|].
+  assert (Nat.max pos (Nat.min (start + len) (length es)) <= length es)%nat by lia.
+  specialize (IH H). lia.
+Qed.
+
+Lemma skipn_skipn : forall {A} (x y : nat) (l : list A), skipn x (skipn y l) = skipn (x + y) l.
+Proof.
+  intros A x y. revert x. induction y as [|y IH]; intros x l.
+  - now rewrite Nat.add_0_r.
+  - destruct l as [|a l]; [now rewrite !skipn_nil|].
+    replace (x + Datatypes.S y)%nat with (Datatypes.S (x + y)) by lia. cbn [skipn]. apply IH.
+Qed.
+
+Lemma firstn_add : forall {A} (n m : nat) (l : list A),
+  firstn (n + m) l = firstn n l ++ firstn m (skipn n l).
+Proof.
+  intros A n. induction n as [|n IH]; intros m l; [reflexivity|].
+  destruct l as [|a l]; [now rewrite !firstn_nil|]. cbn. f_equal. apply IH.
+Qed.
+
+Lemma segment_rest : forall {A} (es : list A) start len pos,
+  (start <= pos <= length es)%nat ->
+  skipn (pos - start) (firstn len (skipn start es)) =
+  firstn (Nat.max pos (Nat.min (start + len) (length es)) - pos) (skipn pos es).
+Proof.
+  intros A es start len pos [H1 H2].
+  rewrite skipn_firstn_comm, skipn_skipn.
+  replace (pos - start + start)%nat with pos by lia.
+  destruct (Nat.le_gt_cases (start + len) (length es)) as [L|L].
+  - f_equal. lia.
+  - rewrite (firstn_all2 (n := (len - (pos - start))%nat)); [|rewrite skipn_length; lia].
+    rewrite (firstn_all2 (n := (Nat.max pos (Nat.min (start + len) (length es)) - pos)%nat)); [reflexivity|].
+    rewrite skipn_length. lia.
+Qed.
+
+Lemma firstn_split_at : forall {A} (es : list A) pos pos' final,
+  (pos <= pos' <= final)%nat ->
+  firstn (final - pos) (skipn pos es) =
+  firstn (pos' - pos) (skipn pos es) ++ firstn (final - pos') (skipn pos' es).
+Proof.
+  intros A es pos pos' final [H1 H2].
+  replace (final - pos)%nat with ((pos' - pos) + (final - pos'))%nat by lia.
+  rewrite firstn_add. f_equal. rewrite skipn_skipn. f_equal. f_equal. lia.
+Qed.
+
+Lemma sync_with_last : forall (s : state) i t, sync (with_last s i t) = sync s.
+Proof. intros []; reflexivity. Qed.
+
+Lemma run_sync_app : forall cfg a b (st : state),
+  run_sync cfg st (a ++ b) =
+  bind (run_sync cfg st a) (fun p =>
+    bind (run_sync cfg (fst p) b) (fun q => Ok (fst q, snd p ++ snd q))).
+Proof.
+  intros cfg a b st. unfold run_sync. rewrite run_entries_app.
+  destruct (run_entries cfg st a) as [[s1 ev1]|x]; cbn [bind fst snd]; [|reflexivity].
+  unfold sync at 2. rewrite run_entries_with_last.
+  destruct (run_entries cfg s1 b) as [[s2 ev2]|x]; cbn [bind fst snd map_state]; [|reflexivity].
+  rewrite sync_with_last. reflexivity.
+Qed.
+
+(* THE BATCHING LEMMA: however the log is cut into tasks and however much of it
+   is delivered again, the apply path does exactly what applying the not yet
+   applied entries one by one does — same state, same reports, same panic *)
+Lemma run_tasks_delivery : forall cfg es,
+  contiguous 0 es -> Forall (fun e => 0 < en_term e) es ->
+  forall pos ts final, delivery es pos ts final ->
+  forall st : state, synced st -> r_index st = N.of_nat pos -> (pos <= length es)%nat ->
+  run_tasks cfg st ts = run_sync cfg st (firstn (final - pos) (skipn pos es)).
+Proof.
+  intros cfg es C F pos ts final D.
+  induction D as [pos|pos start len ts final Hs D IH]; intros st SY IX L.
+  - rewrite Nat.sub_diag. cbn. unfold run_sync. cbn. now rewrite sync_id.
+  - set (pos' := Nat.max pos (Nat.min (start + len) (length es))) in *.
+    assert (B : (pos' <= final <= length es)%nat) by (apply (delivery_bounds _ _ _ _ D); lia).
+    assert (P : (pos <= pos')%nat) by lia.
+    cbn [RsmApply.run_tasks].
+    assert (CT : contiguous (N.of_nat start) (firstn len (skipn start es))).
+    { apply contiguous_firstn. pose proof (contiguous_skipn start 0 es C) as K.
+      replace (Nat.min start (length es)) with start in K by lia. exact K. }
+    rewrite (apply_task_eq cfg _ (N.of_nat start) st CT); auto; [|lia|apply forall_firstn, forall_skipn, F].
+    rewrite IX. replace (N.to_nat (N.of_nat pos - N.of_nat start)) with (pos - start)%nat by lia.
+    rewrite segment_rest by lia. fold pos'.
+    rewrite (firstn_split_at es pos pos' final) by lia.
+    rewrite run_sync_app.
+    destruct (run_sync cfg st (firstn (pos' - pos) (skipn pos es))) as [[s1 ev1]|x] eqn:R1; cbn [bind fst snd]; [|reflexivity].
+    unfold run_sync in R1.
+    destruct (run_entries cfg st (firstn (pos' - pos) (skipn pos es))) as [[s1' ev1']|x] eqn:R1'; [|discriminate].
+    inversion R1; subst s1 ev1.
+    apply run_entries_shape in R1'. destruct R1' as (_ & _ & I1 & _).
+    rewrite (IH (sync s1')); [reflexivity|apply sync_synced| |lia].
+    replace (r_index (sync s1')) with (r_index s1') by (destruct s1'; reflexivity). rewrite I1, IX. unfold nlen.
+    rewrite firstn_length, skipn_length. lia.
+Qed.
+
+(* two replicas that are handed the same log, cut into tasks and re-delivered
+   in whatever way, end in the same state with the same reports (or hit the
+   same panic) *)
+Lemma apply_is_function_of_log_proved : forall cfg es cap (s0 : S) ts1 ts2,
+  contiguous 0 es -> Forall (fun e => 0 < en_term e) es ->
+  delivery es 0 ts1 (length es) -> delivery es 0 ts2 (length es) ->
+  run_tasks cfg (init_state cap s0) ts1 = run_tasks cfg (init_state cap s0) ts2 /\
+  run_tasks cfg (init_state cap s0) ts1 = run_sync cfg (init_state cap s0) es.
+Proof.
+  intros cfg es cap s0 ts1 ts2 C F D1 D2.
+  assert (SY : synced (init_state cap s0)) by (split; reflexivity).
+  rewrite (run_tasks_delivery cfg es C F 0 ts1 _ D1 _ SY eq_refl) by lia.
+  rewrite (run_tasks_delivery cfg es C F 0 ts2 _ D2 _ SY eq_refl) by lia.
+  rewrite Nat.sub_0_r, firstn_all. cbn [skipn]. split; reflexivity.
+Qed.
+
+(* ---- which panics are reachable -------------------------------------------- *)
+
+Lemma apply_entry_err : forall cfg (st : state) e x,
+  apply_entry cfg st e = Err x ->
+  en_index e = r_index st + 1 -> r_term st <= en_term e ->
+  x = ENotManaged \/ x = ECC \/ x = ESession \/ (x = EOnDisk /\ c_ondisk cfg = true).
+Proof.
+  intros cfg st e x H IX TM.
+  assert (SA : forall s : state, r_index s = r_index st -> r_term s = r_term st ->
+               exists s', set_applied s (en_index e) (en_term e) = Ok s').
+  { intros s E1 E2. unfold set_applied. rewrite E1, E2.
+    destruct (negb (r_index st + 1 =? en_index e)) eqn:A; [lia|].
+    destruct (en_term e <? r_term st) eqn:B; [lia|]. eauto. }
+  unfold RsmApply.apply_entry in H. destruct (en_body e) as [se|c].
+  - unfold RsmApply.apply_app in H.
+    destruct (is_update_kind (Session.classify se) && entry_in_init_disk_sm cfg st (en_index e)).
+    + destruct (SA st eq_refl eq_refl) as [s' E]. rewrite E in H. discriminate.
+    + destruct (Session.step sm_update (Session.mkState (r_tab st) (r_sm st)) se) as [sst o].
+      assert (G : bind (if called_user_sm o then set_on_disk_index cfg (with_sess st (Session.st_tab sst) (Session.st_sm sst)) (en_index e) (en_index e)
+                        else Ok (with_sess st (Session.st_tab sst) (Session.st_sm sst)))
+                    (fun st2 => bind (set_applied st2 (en_index e) (en_term e)) (fun st3 => Ok (st3, EvApp o))) = Err x ->
+                  x = EOnDisk /\ c_ondisk cfg = true).
+      { unfold bind. destruct (called_user_sm o).
+        - unfold set_on_disk_index. destruct (c_ondisk cfg) eqn:OD; cbn [negb].
+          + destruct (en_index e <? en_index e); [intros K; inversion K; auto|].
+            destruct (en_index e <=? r_od_init _); [intros K; inversion K; auto|].
+            destruct (en_index e <=? r_od _); [intros K; inversion K; auto|].
+            destruct (SA (with_od (with_sess st (Session.st_tab sst) (Session.st_sm sst)) (en_index e))) as [s' E];
+              [destruct st; reflexivity|destruct st; reflexivity|]. rewrite E. discriminate.
+          + destruct (SA (with_sess st (Session.st_tab sst) (Session.st_sm sst))) as [s' E];
+              [destruct st; reflexivity|destruct st; reflexivity|]. rewrite E. discriminate.
+        - destruct (SA (with_sess st (Session.st_tab sst) (Session.st_sm sst))) as [s' E];
+              [destruct st; reflexivity|destruct st; reflexivity|]. rewrite E. discriminate. }
+      destruct o; try (apply G in H; tauto).
+      inversion H. destruct (Session.classify se); auto.
+  - unfold RsmApply.apply_cc in H.
+    destruct (Membership.handle norm (c_ordered cfg) (r_mem st) c (en_index e)).
+    + destruct (SA (with_mem st m)) as [s' E]; [destruct st; reflexivity|destruct st; reflexivity|].
+      rewrite E in H. discriminate.
+    + destruct (SA st eq_refl eq_refl) as [s' E]. rewrite E in H. discriminate.
+    + inversion H. auto.
+Qed.
+
+Lemma run_entries_err : forall cfg es (st : state) x,
+  run_entries cfg st es = Err x ->
+  contiguous (r_index st) es -> terms_mono (r_term st) es ->
+  x = ENotManaged \/ x = ECC \/ x = ESession \/ (x = EOnDisk /\ c_ondisk cfg = true).
+Proof.
+  induction es as [|e r IH]; intros st x H C T; [discriminate|].
+  destruct C as [C1 C2]. destruct T as [T1 T2].
+  cbn [RsmApply.run_entries] in H.
+  destruct (apply_entry cfg st e) as [[s1 ev]|y] eqn:A; cbn [bind fst snd] in H.
+  - destruct (run_entries cfg s1 r) as [[s2 evs]|y] eqn:R; cbn [bind] in H; [discriminate|].
+    inversion H; subst. apply apply_entry_shape in A. destruct A as (_ & _ & a3 & a4 & _).
+    eapply IH; eauto; [rewrite a3, C1; exact C2 | rewrite a4; exact T2].
+  - inversion H; subst. eapply apply_entry_err; eauto.
+Qed.
+
+Lemma terms_ok_mono : forall es t, terms_ok t es -> terms_mono t es /\ Forall (fun e => 0 < en_term e) es.
+Proof.
+  induction es as [|e r IH]; intros t H; [split; [exact I|constructor]|].
+  destruct H as (H1 & H2 & H3). destruct (IH _ H3). split; [split; auto|constructor; auto].
+Qed.
+
+(* GAP FREEDOM: from a gap-free log (indexes 1, 2, 3, ... and raft's terms), under
+   every delivery schedule, the apply path never reaches the hole panic of
+   EntriesToApply nor the index / term / batch assertions of setApplied and
+   setLastApplied; what is left are a malformed entry (proposals are validated
+   when they are made), the membership assertions (C07) and, for an on-disk
+   state machine, the on-disk index assertions. When it does not stop, the
+   applied index is exactly the number of entries delivered and every entry was
+   reported once. *)
+Lemma apply_gap_free_proved : forall cfg es cap (s0 : S) ts final,
+  contiguous 0 es -> terms_ok 0 es -> delivery es 0 ts final ->
+  match run_tasks cfg (init_state cap s0) ts with
+  | Err x => x = ENotManaged \/ x = ECC \/ x = ESession \/ (x = EOnDisk /\ c_ondisk cfg = true)
+  | Ok (st, evs) => r_index st = N.of_nat final /\ r_last_index st = N.of_nat final /\ length evs = final
+  end.
+Proof.
+  intros cfg es cap s0 ts final C T D.
+  destruct (terms_ok_mono _ _ T) as [TM F].
+  assert (SY : synced (init_state cap s0)) by (split; reflexivity).
+  rewrite (run_tasks_delivery cfg es C F 0 ts _ D _ SY eq_refl) by lia.
+  pose proof (delivery_bounds _ _ _ _ D) as B. rewrite Nat.sub_0_r. cbn [skipn].
+  unfold run_sync. destruct (run_entries cfg (init_state cap s0) (firstn final es)) as [[s evs]|x] eqn:R.
+  - apply run_entries_shape in R. destruct R as (_ & _ & I1 & _ & _ & _ & _ & _ & _ & _ & L).
+    unfold nlen in I1. rewrite firstn_length in *.
+    change (r_index (init_state cap s0)) with 0 in I1.
+    destruct s; unfold sync, with_last; cbn in *. lia.
+  - eapply run_entries_err; eauto.
+    + change (r_index (init_state cap s0)) with 0. apply contiguous_firstn, C.
+    + change (r_term (init_state cap s0)) with 0. clear -TM. revert es TM. generalize 0 at 1 2.
+      induction final as [|n IH]; intros t es TM; [exact I|].
+      destruct es as [|e r]; [exact I|]. destruct TM. cbn. split; auto.
+Qed.
+
+(* ---- snapshot and recover ---------------------------------------------------- *)
+
+Variable sm_save : S -> bytes.
+Variable sm_recover : bytes -> option S.
+Hypothesis sm_roundtrip : forall s, sm_recover (sm_save s) = Some s.
+
+Notation snapshot := (@snapshot S result sm_save).
+Notation prepare := (@prepare S result).
+Notation finish_save := (@finish_save S result sm_save).
+Notation image_of := (@image_of S result sm_save).
+Notation recover := (@recover S result sm_recover).
+Notation image := (@image result).
+
+Lemma obs_sync : forall st : state, obs (sync st) = obs st.
+Proof. intros []; reflexivity. Qed.
+Lemma obs_with_last : forall (st : state) i t, obs (with_last st i t) = obs st.
+Proof. intros []; reflexivity. Qed.
+Lemma obs_with_ss_index : forall (st : state) i, obs (with_ss_index st i) = obs st.
+Proof. intros []; reflexivity. Qed.
+
+(* the metadata getSSMeta captures for state [st] *)
+Definition meta_of (k : sskind) (st : state) : @meta S result :=
+  mkMeta (r_index st) (r_term st) (r_mem st) (r_od st)
+         (Session.t_cap (r_tab st), rev (Session.t_list (r_tab st))) k (r_sm st).
+
+Definition not_out_of_date (cfg : config) (k : sskind) (st : state) : Prop :=
+  c_ondisk cfg = true \/ k = SSExported \/ r_last_index st = 0 \/ r_last_index st <> r_ss_index st.
+
+(* prepare: succeeds, captures exactly (index, term, membership, onDiskIndex,
+   the session table least-recently-used first, the user state) and leaves the
+   replica untouched (the save walk goes through Get, yet restores the LRU order) *)
+Lemma prepare_ok : forall cfg k (st : state),
+  tab_ok st -> Membership.m_is_empty (r_mem st) = false ->
+  r_ss_index st <= r_last_index st -> not_out_of_date cfg k st ->
+  prepare cfg k st = Ok (Prepared (meta_of k st) st).
+Proof.
+  intros cfg k st [[[ND LE] _] CAP] ME SI NO. unfold RsmApply.prepare.
+  destruct (r_last_index st <? r_ss_index st) eqn:A; [lia|].
+  assert (B : negb (c_ondisk cfg) && negb (match k with SSExported => true | _ => false end)
+              && (0 <? r_last_index st) && (r_last_index st =? r_ss_index st) = false).
+  { destruct NO as [NO|[NO|[NO|NO]]].
+    - rewrite NO. reflexivity.
+    - rewrite NO. cbn. now rewrite andb_false_r.
+    - rewrite NO. cbn. now rewrite !andb_false_r.
+    - destruct (r_last_index st =? r_ss_index st) eqn:E; [lia|]. now rewrite andb_false_r. }
+  rewrite B, ME. cbn [Session.st_tab] in ND.
+  rewrite (Proofs.Session.save_preserves_order_proved (r_tab st) ND).
+  unfold meta_of, Membership.m_get. do 3 f_equal. destruct st; reflexivity.
+Qed.
+
+Definition after_save (k : sskind) (st : state) (i : N) : state :=
+  match k with SSStreaming => st | _ => with_ss_index st i end.
+
+Lemma snapshot_ok : forall cfg k (st : state),
+  tab_ok st -> Membership.m_is_empty (r_mem st) = false ->
+  r_ss_index st <= r_last_index st -> not_out_of_date cfg k st ->
+  snapshot cfg k st = Ok (Snap (image_of cfg (meta_of k st)) (after_save k st (r_index st))).
+Proof.
+  intros cfg k st T ME SI NO. unfold RsmApply.snapshot. rewrite prepare_ok by auto.
+  cbn [bind]. unfold RsmApply.finish_save, after_save. cbn [mt_kind meta_of mt_index]. reflexivity.
+Qed.
+
+(* CONCURRENT SNAPSHOT: everything that goes into the image is fixed by
+   prepare(); whatever the replica applies between prepare() and the end of the
+   save (any entries, any number of tasks) the image is the one an atomic
+   snapshot at the prepare point produces *)
+Lemma snapshot_concurrent_image_proved : forall cfg k (st st_later : state) m st1,
+  prepare cfg k st = Ok (Prepared m st1) ->
+  fst (finish_save cfg m st_later) = fst (finish_save cfg m st1) /\
+  snapshot cfg k st = Ok (Snap (fst (finish_save cfg m st1)) (snd (finish_save cfg m st1))).
+Proof.
+  intros cfg k st st_later m st1 P. split; [reflexivity|].
+  unfold RsmApply.snapshot. rewrite P. cbn [bind]. destruct (finish_save cfg m st1); reflexivity.
+Qed.
+
+(* a regular / concurrent state machine recovering from a full image: whatever
+   the receiving replica held, it now holds the snapshot's content *)
+Lemma recover_full : forall cfg init k (st_k st0 : state),
+  c_ondisk cfg = false -> k <> SSStreaming -> tab_ok st_k ->
+  r_last_index st0 < r_index st_k ->
+  recover cfg init st0 (image_of cfg (meta_of k st_k)) =
+  Ok (Recovered (mkSt (r_sm st_k) (r_tab st_k) (r_mem st_k) (r_index st_k) (r_term st_k)
+                      (r_index st_k) (r_term st_k) (r_od_init st0) (r_od st0) (r_ss_index st0))).
+Proof.
+  intros cfg init k st_k st0 OD K [[[ND LE] _] CAP] LT.
+  assert (IM : image_of cfg (meta_of k st_k) =
+               mkImg (r_index st_k) (r_term st_k) (r_mem st_k) (r_od st_k)
+                     (Session.t_cap (r_tab st_k), rev (Session.t_list (r_tab st_k)))
+                     (Some (sm_save (r_sm st_k))) false false false false).
+  { unfold RsmApply.image_of, meta_of. cbn [mt_kind mt_index mt_term mt_mem mt_od mt_sessions mt_ctx].
+    destruct k; try congruence; rewrite ?OD; reflexivity. }
+  rewrite IM. unfold RsmApply.recover.
+  cbn [i_index i_witness i_dummy i_shrunk i_od i_imported orb].
+  destruct (r_index st_k <=? r_last_index st0) eqn:A; [lia|].
+  rewrite OD. cbn [andb negb orb]. rewrite andb_false_r. cbn [negb].
+  unfold load. cbn [i_sessions i_data].
+  cbn [Session.st_tab] in ND, LE.
+  destruct (Proofs.Session.load_save_id_proved (r_tab st_k) _ _ ND LE CAP
+              (Proofs.Session.save_preserves_order_proved (r_tab st_k) ND)) as [_ L].
+  rewrite L, sm_roundtrip. cbn [bind]. unfold apply_snapshot, Membership.m_set.
+  cbn [i_mem i_index i_term]. destruct st0; reflexivity.
+Qed.
+
+(* ---- the cut theorem ----------------------------------------------------------- *)
+
+Lemma run_entries_prefix : forall cfg es k (st st_f : state) evs_f,
+  run_entries cfg st es = Ok (st_f, evs_f) ->
+  exists st_k evs_k evs_r,
+    run_entries cfg st (firstn k es) = Ok (st_k, evs_k) /\
+    run_entries cfg st_k (skipn k es) = Ok (st_f, evs_r) /\ evs_f = evs_k ++ evs_r.
+Proof.
+  intros cfg es k st st_f evs_f H. rewrite <- (firstn_skipn k es) in H at 1.
+  rewrite run_entries_app in H.
+  destruct (run_entries cfg st (firstn k es)) as [[s1 e1]|x] eqn:A; cbn [bind fst snd] in H; [|discriminate].
+  destruct (run_entries cfg s1 (skipn k es)) as [[s2 e2]|x] eqn:B; cbn [bind fst snd] in H; [|discriminate].
+  inversion H; subst. exists s1, e1, e2. auto.
+Qed.
+
+Lemma init_tab_ok : forall cap (s0 : S), 0 < cap -> tab_ok (init_state cap s0).
+Proof.
+  intros cap s0 P. split; [|exact P].
+  exact (Proofs.Session.init_inv sm_update cap s0).
+Qed.
+
+Lemma tab_ok_irrelevant : forall (a b : state), r_tab a = r_tab b -> tab_ok a -> tab_ok b.
+Proof. intros a b E [[W H] C]. unfold tab_ok, Proofs.Session.inv in *. cbn [Session.st_tab] in *. rewrite <- E. auto. Qed.
+
+(* a replica that continues from state [st_k] — possibly with another
+   snapshotIndex and with lastApplied brought up to date — under any delivery
+   schedule of the rest of the log (with any overlap) *)
+Lemma continue_from : forall cfg es k (st_k st_f : state) evs_r ssi ts,
+  contiguous 0 es -> Forall (fun e => 0 < en_term e) es -> (k <= length es)%nat ->
+  r_index st_k = N.of_nat k ->
+  run_entries cfg st_k (skipn k es) = Ok (st_f, evs_r) ->
+  delivery es k ts (length es) ->
+  run_tasks cfg (with_ss_index (sync st_k) ssi) ts = Ok (sync (with_ss_index (sync st_f) ssi), evs_r).
+Proof.
+  intros cfg es k st_k st_f evs_r ssi ts C F L IX R D.
+  rewrite (run_tasks_delivery cfg es C F k ts _ D);
+    [|destruct st_k; split; reflexivity|destruct st_k; exact IX|exact L].
+  rewrite firstn_all2 by (rewrite skipn_length; lia).
+  unfold run_sync. rewrite run_entries_with_ss_index. unfold sync at 1. rewrite run_entries_with_last, R.
+  cbn [map_state]. do 2 f_equal; try (destruct st_f; reflexivity).
+Qed.
+
+Lemma cutter_fields : forall (s : state) i,
+  let c := with_ss_index (sync s) i in
+  r_sm c = r_sm s /\ r_tab c = r_tab s /\ r_mem c = r_mem s /\ r_index c = r_index s /\ r_term c = r_term s /\
+  r_last_index c = r_index s /\ r_last_term c = r_term s /\ r_od_init c = r_od_init s /\ r_od c = r_od s /\
+  r_ss_index c = i.
+Proof. intros [] i. cbn. repeat split. Qed.
+
+(* SNAPSHOT + LOG SUFFIX = FULL LOG, regular and concurrent state machines.
+   [es] any log (indexes 1.., positive terms), the uninterrupted replica applies
+   it completely; [k] any cut with a non-empty membership; the cut replica
+   (whatever snapshots it took before: [ssi]) saves a snapshot of kind regular or
+   exported at [k]; ANY replica that is behind [k] — a fresh one (restart, any
+   factory state [s0'], any default session capacity [cap']) or a running one
+   that lags at [j] < [k] (InstallSnapshot from the leader) — recovers from it and
+   is then handed the rest of the log under ANY delivery schedule that starts at
+   or below [k] (overlap). It ends with the same user data, session table (LRU
+   order included), membership, applied index and term as the uninterrupted
+   replica, and reports the same result for every entry after the cut. *)
+Lemma snapshot_cut_equiv_proved : forall cfg cap (s0 : S) es k st_f evs_f,
+  c_ondisk cfg = false -> 0 < cap ->
+  contiguous 0 es -> Forall (fun e => 0 < en_term e) es ->
+  run_entries cfg (init_state cap s0) es = Ok (st_f, evs_f) ->
+  (0 < k <= length es)%nat ->
+  exists st_k evs_k evs_r,
+    run_entries cfg (init_state cap s0) (firstn k es) = Ok (st_k, evs_k) /\ evs_f = evs_k ++ evs_r /\
+    forall kind ssi,
+      kind <> SSStreaming -> Membership.m_is_empty (r_mem st_k) = false ->
+      ssi <= r_index st_k -> (kind = SSExported \/ ssi <> r_index st_k) ->
+      let cutter := with_ss_index (sync st_k) ssi in
+      exists img,
+        snapshot cfg kind cutter = Ok (Snap img (with_ss_index (sync st_k) (r_index st_k))) /\
+        i_index img = N.of_nat k /\
+        forall (init : bool) (st0 : state) ts,
+          r_last_index st0 < N.of_nat k -> r_od_init st0 = 0 -> r_od st0 = 0 ->
+          delivery es k ts (length es) ->
+          exists st_r st_f',
+            recover cfg init st0 img = Ok (Recovered st_r) /\ obs st_r = obs st_k /\
+            run_tasks cfg st_r ts = Ok (st_f', evs_r) /\ obs st_f' = obs st_f.
+Proof.
+  intros cfg cap s0 es k st_f evs_f OD CAP C F RUN [K1 K2].
+  destruct (run_entries_prefix cfg es k _ _ _ RUN) as (st_k & evs_k & evs_r & R1 & R2 & E).
+  exists st_k, evs_k, evs_r. split; [exact R1|]. split; [exact E|].
+  intros kind ssi KS ME SI NO cutter.
+  pose proof (run_entries_shape _ _ _ _ _ R1) as (_ & _ & IX & _ & _ & _ & ODI & _ & ODX & TAB & _).
+  specialize (TAB (init_tab_ok cap s0 CAP)). specialize (ODX OD).
+  change (r_index (init_state cap s0)) with 0 in IX. unfold nlen in IX. rewrite firstn_length in IX.
+  replace (Nat.min k (length es)) with k in IX by lia. rewrite N.add_0_l in IX.
+  change (r_od_init (init_state cap s0)) with 0 in ODI. change (r_od (init_state cap s0)) with 0 in ODX.
+  destruct (cutter_fields st_k ssi) as (c1 & c2 & c3 & c4 & c5 & c6 & c7 & c8 & c9 & c10). fold cutter in c1, c2, c3, c4, c5, c6, c7, c8, c9, c10.
+  assert (TC : tab_ok cutter) by (eapply tab_ok_irrelevant; [|exact TAB]; now rewrite c2).
+  exists (image_of cfg (meta_of kind cutter)). split; [|split].
+  - rewrite snapshot_ok; [|exact TC|now rewrite c3|rewrite c10, c6; exact SI|].
+    + do 2 f_equal. unfold after_save. rewrite c4. destruct kind; try congruence; subst cutter; destruct st_k; reflexivity.
+    + unfold not_out_of_date. destruct NO as [NO|NO]; [auto|]. right. right. right. rewrite c6, c10. intros X. apply NO. now symmetry.
+  - unfold RsmApply.image_of, meta_of. cbn [mt_kind]. destruct kind; try congruence; rewrite ?OD; cbn [i_index mt_index]; now rewrite c4.
+  - intros init st0 ts LT Z1 Z2 D.
+    rewrite (recover_full cfg init kind cutter st0 OD KS TC) by (rewrite c4; lia).
+    set (st_r := mkSt (r_sm cutter) (r_tab cutter) (r_mem cutter) (r_index cutter) (r_term cutter)
+                      (r_index cutter) (r_term cutter) (r_od_init st0) (r_od st0) (r_ss_index st0)).
+    assert (SR : st_r = with_ss_index (sync st_k) (r_ss_index st0)).
+    { subst st_r. rewrite c1, c2, c3, c4, c5, Z1, Z2. clear -ODI ODX. destruct st_k; cbn in *. subst. reflexivity. }
+    exists st_r, (sync (with_ss_index (sync st_f) (r_ss_index st0))).
+    split; [reflexivity|]. split; [rewrite SR, obs_with_ss_index, obs_sync; reflexivity|].
+    split.
+    + rewrite SR. eapply continue_from; eauto; lia.
+    + now rewrite obs_sync, obs_with_ss_index, obs_sync.
+Qed.
+
+(* ---- on-disk state machines -------------------------------------------------- *)
+
+(* what reaches an IOnDiskStateMachine: NoOP-session proposals, empty entries,
+   config changes (nodehost.go refuses every other session on it) *)
+Definition ondisk_entry (e : @entry) : Prop :=
+  match en_body e with
+  | BCC _ => True
+  | BApp se => Session.classify se = Session.KNoop \/ Session.classify se = Session.KNoopSession
+  end.
+
+(* everything but onDiskInitIndex and the bookkeeping the entry path never reads *)
+Definition core_eq (a b : state) : Prop :=
+  r_sm a = r_sm b /\ r_tab a = r_tab b /\ r_mem a = r_mem b /\ r_index a = r_index b /\
+  r_term a = r_term b /\ r_od a = r_od b.
+
+Definition rel_res (r1 r2 : res (state * event)) : Prop :=
+  match r1, r2 with
+  | Ok (a, ev), Ok (b, ev') => core_eq a b /\ ev = ev'
+  | Err x, Err y => x = y
+  | _, _ => False
+  end.
+
+(* above both init indexes the init index does not matter *)
+Lemma apply_entry_above_init : forall cfg (a b : state) e,
+  core_eq a b -> r_od_init a < en_index e -> r_od_init b < en_index e ->
+  rel_res (apply_entry cfg a e) (apply_entry cfg b e).
+Proof.
+  intros cfg [sm tab mem idx tm li lt odi od ssi] [sm' tab' mem' idx' tm' li' lt' odi' od' ssi'] e
+    (E1 & E2 & E3 & E4 & E5 & E6) L1 L2.
+  cbn in E1, E2, E3, E4, E5, E6, L1, L2. subst sm' tab' mem' idx' tm' od'.
+  assert (X1 : en_index e <=? odi = false) by lia. assert (X2 : en_index e <=? odi' = false) by lia.
+  unfold rel_res, core_eq, RsmApply.apply_entry, RsmApply.apply_app, RsmApply.apply_cc, set_applied, set_on_disk_index,
+    entry_in_init_disk_sm, bind, with_applied, with_sess, with_mem, with_od.
+  cbn [r_sm r_tab r_mem r_index r_term r_last_index r_last_term r_od_init r_od r_ss_index].
+  rewrite X1, X2.
+  destruct (en_body e) as [se|c].
+  - replace (if c_ondisk cfg then false else false) with false by (destruct (c_ondisk cfg); reflexivity).
+    rewrite andb_false_r.
+    destruct (Session.step sm_update (Session.mkState tab sm) se) as [sst o]. destruct o; crunch; repeat split.
+  - destruct (Membership.handle norm (c_ordered cfg) mem c (en_index e)); crunch; repeat split.
+Qed.
+
+Lemma run_entries_above_init : forall cfg es (a b : state),
+  core_eq a b -> r_od_init a <= r_index a -> r_od_init b <= r_index b ->
+  contiguous (r_index a) es ->
+  match run_entries cfg a es, run_entries cfg b es with
+  | Ok (a', evs), Ok (b', evs') => core_eq a' b' /\ evs = evs' /\ r_od_init a' = r_od_init a /\ r_od_init b' = r_od_init b
+  | Err x, Err y => x = y
+  | _, _ => False
+  end.
+Proof.
+  induction es as [|e r IH]; intros a b CE La Lb C.
+  - cbn. auto.
+  - destruct C as [C1 C2]. cbn [RsmApply.run_entries].
+    assert (EI : r_index a = r_index b) by (destruct CE as (_ & _ & _ & EI & _); exact EI).
+    pose proof (apply_entry_above_init cfg a b e CE) as R.
+    assert (G1 : r_od_init a < en_index e) by lia. assert (G2 : r_od_init b < en_index e) by lia.
+    specialize (R G1 G2). unfold rel_res in R.
+    destruct (apply_entry cfg a e) as [[a1 ev]|x] eqn:A; destruct (apply_entry cfg b e) as [[b1 ev']|y] eqn:B;
+      try contradiction; cbn [bind fst snd]; [|exact R].
+    destruct R as [CE1 ->].
+    pose proof (apply_entry_shape _ _ _ _ _ A) as (_ & _ & a_i1 & _ & _ & _ & a_odi & _).
+    pose proof (apply_entry_shape _ _ _ _ _ B) as (_ & _ & b_i1 & _ & _ & _ & b_odi & _).
+    assert (La1 : r_od_init a1 <= r_index a1) by (rewrite a_odi, a_i1; lia).
+    assert (Lb1 : r_od_init b1 <= r_index b1) by (rewrite b_odi, b_i1; lia).
+    assert (Ca1 : contiguous (r_index a1) r) by (rewrite a_i1, C1; exact C2).
+    specialize (IH a1 b1 CE1 La1 Lb1 Ca1).
+    destruct (run_entries cfg a1 r) as [[a2 evs]|x]; destruct (run_entries cfg b1 r) as [[b2 evs']|y]; cbn [bind fst snd]; auto.
+    destruct IH as (? & -> & I1 & I2). rewrite I1, I2, a_odi, b_odi. auto.
+Qed.
+
+Ltac dis := let H := fresh in intros H; discriminate H.
+
+Definition mit_eq (a b : state) : Prop :=
+  r_mem a = r_mem b /\ r_index a = r_index b /\ r_term a = r_term b /\ r_tab a = r_tab b.
+
+(* at or below the index returned by Open a proposal is a no-op for the user
+   state machine, while membership changes and the applied position advance
+   exactly as on a replica that applies it *)
+Lemma apply_entry_in_init : forall cfg (a b a' : state) e ev,
+  c_ondisk cfg = true -> ondisk_entry e -> mit_eq a b -> en_index e <= r_od_init b ->
+  apply_entry cfg a e = Ok (a', ev) ->
+  exists b' ev', apply_entry cfg b e = Ok (b', ev') /\ mit_eq a' b' /\
+    r_sm b' = r_sm b /\ r_od b' = r_od b /\ r_od_init b' = r_od_init b /\ r_tab a' = r_tab a.
+Proof.
+  intros cfg [sm tab mem idx tm li lt odi od ssi] [sm' tab' mem' idx' tm' li' lt' odi' od' ssi'] a' e ev
+    OD OE (E1 & E2 & E3 & E4) LE.
+  cbn in E1, E2, E3, E4, LE. subst mem' idx' tm' tab'.
+  assert (X : en_index e <=? odi' = true) by lia.
+  unfold mit_eq, ondisk_entry, RsmApply.apply_entry, RsmApply.apply_app, RsmApply.apply_cc, set_applied, set_on_disk_index,
+    entry_in_init_disk_sm, bind, with_applied, with_sess, with_mem, with_od in *.
+  cbn [r_sm r_tab r_mem r_index r_term r_last_index r_last_term r_od_init r_od r_ss_index].
+  rewrite OD, X. cbn [negb].
+  destruct (en_body e) as [se|c].
+  - unfold Session.step. cbn [Session.st_tab Session.st_sm]. destruct OE as [K|K]; rewrite K;
+      cbn -[N.add N.eqb N.ltb N.leb].
+    + destruct (negb (idx + 1 =? en_index e)); [dis|]. destruct (en_term e <? tm); [dis|].
+      intros H; inversion H; subst. do 2 eexists. split; [reflexivity|]. cbn. repeat split.
+    + destruct (sm_update sm (Session.e_cmd se)) as [smx r]. cbn -[N.add N.eqb N.ltb N.leb].
+      destruct (en_index e <=? odi).
+      { destruct (negb (idx + 1 =? en_index e)); [dis|]. destruct (en_term e <? tm); [dis|].
+        intros H; inversion H; subst. do 2 eexists. split; [reflexivity|]. cbn. repeat split. }
+      destruct (en_index e <? en_index e); [dis|].
+      destruct (en_index e <=? od); [dis|]. cbn -[N.add N.eqb N.ltb N.leb].
+      destruct (negb (idx + 1 =? en_index e)); [dis|]. destruct (en_term e <? tm); [dis|].
+      intros H; inversion H; subst. do 2 eexists. split; [reflexivity|]. cbn. repeat split.
+  - destruct (Membership.handle norm (c_ordered cfg) mem c (en_index e)); try dis; cbn [r_index r_term];
+      (destruct (negb (idx + 1 =? en_index e)); [dis|]); (destruct (en_term e <? tm); [dis|]);
+      intros H; inversion H; subst; do 2 eexists; (split; [reflexivity|]); cbn; repeat split.
+Qed.
+
+Lemma forall_inv_cons : forall {A} (P : A -> Prop) x l, Forall P (x :: l) -> P x /\ Forall P l.
+Proof. intros A P x l H. inversion H; auto. Qed.
+
+Lemma run_entries_in_init : forall cfg es (a b a' : state) evs,
+  c_ondisk cfg = true -> Forall ondisk_entry es -> mit_eq a b ->
+  r_index a + nlen es <= r_od_init b ->
+  run_entries cfg a es = Ok (a', evs) ->
+  exists b' evs', run_entries cfg b es = Ok (b', evs') /\ mit_eq a' b' /\
+    r_sm b' = r_sm b /\ r_od b' = r_od b /\ r_od_init b' = r_od_init b /\ r_tab a' = r_tab a.
+Proof.
+  induction es as [|e r IH]; intros a b a' evs OD F M LE H.
+  - cbn in H. inversion H; subst. exists b, []. cbn. repeat split; auto; apply M.
+  - apply forall_inv_cons in F. destruct F as [F1 F2]. cbn [RsmApply.run_entries] in *.
+    destruct (apply_entry cfg a e) as [[a1 ev]|x] eqn:A; cbn [bind fst snd] in H; [|discriminate].
+    destruct (run_entries cfg a1 r) as [[a2 evs2]|x] eqn:R; cbn [bind fst snd] in H; [|discriminate].
+    inversion H; subst.
+    pose proof (apply_entry_shape _ _ _ _ _ A) as (a_ix & _ & a_i1 & _).
+    unfold nlen in LE. cbn [length] in LE.
+    destruct (apply_entry_in_init cfg a b a1 e ev OD F1 M) as (b1 & ev' & B & M1 & S1 & O1 & I1 & T1); [lia|exact A|].
+    rewrite B. cbn [bind fst snd].
+    destruct (IH a1 b1 a' evs2 OD F2 M1) as (b2 & evs' & B2 & M2 & S2 & O2 & I2 & T2); [unfold nlen; rewrite I1; lia|exact R|].
+    rewrite B2. cbn [bind fst snd]. do 2 eexists. split; [reflexivity|].
+    repeat split; try apply M2; congruence.
+Qed.
+
+(* on an on-disk replica onDiskIndex only moves when the user state machine is
+   called; if it did not move over a stretch of the log, nothing was applied to
+   the user state machine there *)
+Lemma apply_entry_od : forall cfg (st st' : state) e ev,
+  c_ondisk cfg = true -> apply_entry cfg st e = Ok (st', ev) ->
+  (r_sm st' = r_sm st /\ r_od st' = r_od st) \/ r_od st' = en_index e.
+Proof.
+  intros cfg [sm tab mem idx tm li lt odi od ssi] st' e ev OD.
+  unfold RsmApply.apply_entry, RsmApply.apply_app, RsmApply.apply_cc, set_applied, set_on_disk_index,
+    entry_in_init_disk_sm, bind, with_applied, with_sess, with_mem, with_od.
+  cbn [r_sm r_tab r_mem r_index r_term r_last_index r_last_term r_od_init r_od r_ss_index].
+  rewrite OD. cbn [negb].
+  destruct (en_body e) as [se|c].
+  - destruct (is_update_kind (Session.classify se) && (en_index e <=? odi)).
+    + destruct (negb (idx + 1 =? en_index e)); [dis|]. destruct (en_term e <? tm); [dis|].
+      intros H; inversion H; subst. left. split; reflexivity.
+    + destruct (Session.step sm_update (Session.mkState tab sm) se) as [sst o] eqn:St.
+      pose proof (Proofs.Session.sm_touched_only_when_applied_proved sm_update _ _ _ _ St) as T.
+      destruct o; cbn [called_user_sm r_index r_term]; try dis;
+        try (destruct (negb (idx + 1 =? en_index e)); [dis|]; destruct (en_term e <? tm); [dis|];
+             intros H; inversion H; subst; left; cbn;
+             destruct T as [(T1 & _)|(r0 & T1 & _)]; [cbn in T1; split; [exact T1|reflexivity]|discriminate T1]).
+      destruct (en_index e <? en_index e); [dis|]. destruct (en_index e <=? odi); [dis|].
+      destruct (en_index e <=? od); [dis|]. cbn [r_index r_term].
+      destruct (negb (idx + 1 =? en_index e)); [dis|]. destruct (en_term e <? tm); [dis|].
+      intros H; inversion H; subst. right. reflexivity.
+  - destruct (Membership.handle norm (c_ordered cfg) mem c (en_index e)); try dis; cbn [r_index r_term];
+      (destruct (negb (idx + 1 =? en_index e)); [dis|]); (destruct (en_term e <? tm); [dis|]);
+      intros H; inversion H; subst; left; split; reflexivity.
+Qed.
+
+Lemma run_entries_od : forall cfg es (st st' : state) evs,
+  c_ondisk cfg = true -> run_entries cfg st es = Ok (st', evs) -> r_od st <= r_index st ->
+  r_od st <= r_od st' /\ r_od st' <= r_index st' /\ (r_od st' = r_od st -> r_sm st' = r_sm st).
+Proof.
+  induction es as [|e r IH]; intros st st' evs OD H LE.
+  - cbn in H. inversion H; subst. repeat split; auto; lia.
+  - cbn [RsmApply.run_entries] in H.
+    destruct (apply_entry cfg st e) as [[s1 ev]|x] eqn:A; cbn [bind fst snd] in H; [|discriminate].
+    destruct (run_entries cfg s1 r) as [[s2 evs2]|x] eqn:R; cbn [bind fst snd] in H; [|discriminate].
+    inversion H; subst.
+    pose proof (apply_entry_shape _ _ _ _ _ A) as (a_ix & _ & a_i1 & _).
+    destruct (apply_entry_od _ _ _ _ _ OD A) as [[E1 E2]|E].
+    + destruct (IH s1 st' evs2 OD R) as (I1 & I2 & I3); [lia|].
+      repeat split; try lia. intros Q. rewrite I3, E1; auto. lia.
+    + destruct (IH s1 st' evs2 OD R) as (I1 & I2 & I3); [lia|].
+      repeat split; try lia.
+Qed.
+
+Lemma apply_entry_ondisk_tab : forall cfg (st st' : state) e ev,
+  ondisk_entry e -> apply_entry cfg st e = Ok (st', ev) -> r_tab st' = r_tab st.
+Proof.
+  intros cfg st st' e ev OE H. apply apply_entry_shape in H.
+  destruct H as (_ & _ & _ & _ & _ & _ & _ & _ & _ & _ & [[E _]|(se & B & E)]); [exact E|].
+  unfold ondisk_entry in OE. rewrite B in OE.
+  unfold Session.step in E. cbn [Session.st_tab Session.st_sm] in E.
+  destruct OE as [K|K]; rewrite K in E.
+  - cbn in E. inversion E; reflexivity.
+  - destruct (sm_update (r_sm st) (Session.e_cmd se)). cbn in E. inversion E; reflexivity.
+Qed.
+
+Lemma run_entries_ondisk_tab : forall cfg es (st st' : state) evs,
+  Forall ondisk_entry es -> run_entries cfg st es = Ok (st', evs) -> r_tab st' = r_tab st.
+Proof.
+  induction es as [|e r IH]; intros st st' evs F H.
+  - cbn in H. inversion H; reflexivity.
+  - apply forall_inv_cons in F. destruct F as [F1 F2]. cbn [RsmApply.run_entries] in H.
+    destruct (apply_entry cfg st e) as [[s1 ev]|x] eqn:A; cbn [bind fst snd] in H; [|discriminate].
+    destruct (run_entries cfg s1 r) as [[s2 evs2]|x] eqn:R; cbn [bind fst snd] in H; [|discriminate].
+    inversion H; subst. rewrite (IH _ _ _ F2 R). eapply apply_entry_ondisk_tab; eauto.
+Qed.
+
+(* run over a middle segment, from the run over the whole *)
+Lemma run_entries_middle : forall cfg es p q (st st_p st_q : state) ep eq,
+  (p <= q)%nat ->
+  run_entries cfg st (firstn p es) = Ok (st_p, ep) ->
+  run_entries cfg st (firstn q es) = Ok (st_q, eq) ->
+  exists em, run_entries cfg st_p (firstn (q - p) (skipn p es)) = Ok (st_q, em).
+Proof.
+  intros cfg es p q st st_p st_q ep eq L P Q.
+  assert (E : firstn q es = firstn p es ++ firstn (q - p) (skipn p es)).
+  { replace q with (p + (q - p))%nat at 1 by lia. apply firstn_add. }
+  rewrite E, run_entries_app, P in Q. cbn [bind fst snd] in Q.
+  destruct (run_entries cfg st_p (firstn (q - p) (skipn p es))) as [[s em]|x]; cbn [bind fst snd] in Q; [|discriminate].
+  inversion Q; subst. eauto.
+Qed.
+
+Lemma obs_core_eq : forall a b : state, core_eq a b -> obs a = obs b /\ r_od a = r_od b.
+Proof.
+  intros [] [] (E1 & E2 & E3 & E4 & E5 & E6). cbn in *. subst. split; reflexivity.
+Qed.
+
+(* SNAPSHOT + LOG SUFFIX = FULL LOG, on-disk state machines. The snapshot of a
+   running on-disk replica is a dummy (membership, index, term, OnDiskIndex; no
+   user data); the user data comes back from the state machine's own disk, which
+   holds the state after some entry [pD] it applied (Open returns that index);
+   Sync before the snapshot guarantees OnDiskIndex(snapshot) <= pD. After the
+   restart, entries at or below pD are no-ops for the user state machine while
+   config changes are still applied; from pD on everything is applied. The
+   restarted replica ends with the same user data, (empty) session table,
+   membership, applied index, term and onDiskIndex as the uninterrupted one. *)
+Lemma snapshot_cut_equiv_ondisk_proved : forall cfg cap (s0 : S) es k pD st_f evs_f,
+  c_ondisk cfg = true -> 0 < cap ->
+  contiguous 0 es -> Forall (fun e => 0 < en_term e) es -> Forall ondisk_entry es ->
+  run_entries cfg (init_state cap s0) es = Ok (st_f, evs_f) ->
+  (0 < k <= length es)%nat -> (pD <= length es)%nat ->
+  exists st_k evs_k st_D evs_D,
+    run_entries cfg (init_state cap s0) (firstn k es) = Ok (st_k, evs_k) /\
+    run_entries cfg (init_state cap s0) (firstn pD es) = Ok (st_D, evs_D) /\
+    forall ssi ts,
+      Membership.m_is_empty (r_mem st_k) = false -> ssi <= r_index st_k ->
+      r_od st_D = N.of_nat pD -> r_od st_k <= N.of_nat pD ->
+      delivery es k ts (length es) ->
+      exists img st_r st_f' evs',
+        snapshot cfg SSRegular (with_ss_index (sync st_k) ssi) =
+          Ok (Snap img (with_ss_index (sync st_k) (r_index st_k))) /\
+        i_dummy img = true /\ i_data img = None /\
+        recover cfg true (open_ondisk (init_state cap (r_sm st_D)) (N.of_nat pD)) img = Ok (Recovered st_r) /\
+        run_tasks cfg st_r ts = Ok (st_f', evs') /\ obs st_f' = obs st_f /\ r_od st_f' = r_od st_f.
+Proof.
+  intros cfg cap s0 es k pD st_f evs_f OD CAP C F OE RUN [K1 K2] PD.
+  destruct (run_entries_prefix cfg es k _ _ _ RUN) as (st_k & evs_k & evs_rk & Rk & Rk2 & Ek).
+  destruct (run_entries_prefix cfg es pD _ _ _ RUN) as (st_D & evs_D & evs_rD & RD & RD2 & ED).
+  exists st_k, evs_k, st_D, evs_D. split; [exact Rk|]. split; [exact RD|].
+  intros ssi ts ME SI HD HK D.
+  pose proof (run_entries_shape _ _ _ _ _ Rk) as (_ & _ & IXk & _ & _ & _ & ODIk & _ & _ & TABk & _).
+  pose proof (run_entries_shape _ _ _ _ _ RD) as (_ & _ & IXD & _ & _ & _ & ODID & _ & _ & _ & _).
+  specialize (TABk (init_tab_ok cap s0 CAP)).
+  change (r_index (init_state cap s0)) with 0 in IXk, IXD. unfold nlen in IXk, IXD. rewrite firstn_length in IXk, IXD.
+  replace (Nat.min k (length es)) with k in IXk by lia. replace (Nat.min pD (length es)) with pD in IXD by lia.
+  rewrite N.add_0_l in IXk, IXD.
+  change (r_od_init (init_state cap s0)) with 0 in ODIk, ODID.
+  pose proof (run_entries_ondisk_tab cfg _ _ _ _ (forall_firstn _ k _ OE) Rk) as TBk.
+  pose proof (run_entries_ondisk_tab cfg _ _ _ _ (forall_firstn _ pD _ OE) RD) as TBD.
+  change (r_tab (init_state cap s0)) with (@Session.empty_table result cap) in TBk, TBD.
+  set (cutter := with_ss_index (sync st_k) ssi).
+  destruct (cutter_fields st_k ssi) as (c1 & c2 & c3 & c4 & c5 & c6 & c7 & c8 & c9 & c10).
+  fold cutter in c1, c2, c3, c4, c5, c6, c7, c8, c9, c10.
+  assert (TC : tab_ok cutter) by (eapply tab_ok_irrelevant; [|exact TABk]; now rewrite c2).
+  set (img := image_of cfg (meta_of SSRegular cutter)).
+  assert (IM : img = mkImg (r_index st_k) (r_term st_k) (r_mem st_k) (r_od st_k)
+                       (Session.t_cap (r_tab st_k), rev (Session.t_list (r_tab st_k))) None true false false false).
+  { subst img. unfold RsmApply.image_of, meta_of. cbn [mt_kind mt_index mt_term mt_mem mt_od mt_sessions].
+    rewrite OD, c2, c3, c4, c5, c9. reflexivity. }
+  set (st_r := mkSt (r_sm st_D) (@Session.empty_table result cap) (r_mem st_k) (r_index st_k) (r_term st_k)
+                    (r_index st_k) (r_term st_k) (N.of_nat pD) (N.of_nat pD) 0).
+  assert (REC : recover cfg true (open_ondisk (init_state cap (r_sm st_D)) (N.of_nat pD)) img = Ok (Recovered st_r)).
+  { rewrite IM. unfold RsmApply.recover, open_ondisk, init_state, with_od, with_od_init.
+    cbn [i_index i_witness i_dummy i_shrunk i_od i_imported orb r_last_index r_od_init r_od r_sm r_tab r_mem r_index r_term r_last_term r_ss_index].
+    destruct (r_index st_k <=? 0) eqn:A; [lia|]. rewrite OD. cbn [andb negb orb].
+    destruct (N.of_nat pD <? r_od st_k) eqn:B; [lia|]. reflexivity. }
+  assert (SYr : synced st_r) by (split; reflexivity).
+  assert (IXr : r_index st_r = N.of_nat k) by exact IXk.
+  (* the rest of the log, entry by entry, on the restarted replica *)
+  assert (MAIN : exists st_f'' evs'', run_entries cfg st_r (skipn k es) = Ok (st_f'', evs'') /\ core_eq st_f st_f'').
+  { destruct (Nat.le_gt_cases pD k) as [LE|GT].
+    - (* the disk is not ahead of the snapshot *)
+      destruct (run_entries_middle cfg es pD k _ _ _ _ _ LE RD Rk) as (em & MID).
+      destruct (run_entries_od cfg _ _ _ _ OD MID) as (M1 & M2 & M3); [lia|].
+      assert (EQod : r_od st_k = r_od st_D) by lia. specialize (M3 EQod).
+      assert (CE : core_eq st_k st_r).
+      { unfold core_eq. subst st_r. cbn.
+        refine (conj M3 (conj TBk (conj eq_refl (conj eq_refl (conj eq_refl _))))). lia. }
+      pose proof (run_entries_above_init cfg (skipn k es) st_k st_r CE) as R.
+      rewrite Rk2 in R.
+      destruct (run_entries cfg st_r (skipn k es)) as [[b' evs']|y].
+      + destruct R as (R1 & _); [lia|subst st_r; cbn; lia| |eauto].
+        rewrite IXk. pose proof (contiguous_skipn k 0 es C) as K. replace (Nat.min k (length es)) with k in K by lia. exact K.
+      + exfalso. apply R; [lia|subst st_r; cbn; lia|].
+        rewrite IXk. pose proof (contiguous_skipn k 0 es C) as K. replace (Nat.min k (length es)) with k in K by lia. exact K.
+    - (* the disk is ahead: entries k+1 .. pD are no-ops for the user state machine *)
+      assert (LE : (k <= pD)%nat) by lia.
+      destruct (run_entries_middle cfg es k pD _ _ _ _ _ LE Rk RD) as (em & MID).
+      assert (ME0 : mit_eq st_k st_r) by (subst st_r; unfold mit_eq; cbn; repeat split; auto).
+      destruct (run_entries_in_init cfg _ st_k st_r st_D em OD
+                  (forall_firstn _ (pD - k) _ (forall_skipn _ k _ OE)) ME0) as (vD & evD & RV & MV & SV & OV & IV & _); [|exact MID|].
+      { subst st_r. cbn [r_od_init]. unfold nlen. rewrite firstn_length, skipn_length. lia. }
+      assert (CE : core_eq st_D vD).
+      { destruct MV as (m1 & m2 & m3 & m4). unfold core_eq.
+        refine (conj _ (conj m4 (conj m1 (conj m2 (conj m3 _))))).
+        - rewrite SV. reflexivity.
+        - rewrite OV. subst st_r. cbn. exact HD. }
+      pose proof (run_entries_above_init cfg (skipn pD es) st_D vD CE) as R.
+      rewrite RD2 in R.
+      assert (SPLIT : skipn k es = firstn (pD - k) (skipn k es) ++ skipn pD es).
+      { rewrite <- (firstn_skipn (pD - k) (skipn k es)) at 1. f_equal. rewrite skipn_skipn. f_equal. lia. }
+      rewrite SPLIT, run_entries_app, RV. cbn [bind fst snd].
+      assert (CT : contiguous (r_index st_D) (skipn pD es)).
+      { rewrite IXD. pose proof (contiguous_skipn pD 0 es C) as K. replace (Nat.min pD (length es)) with pD in K by lia. exact K. }
+      assert (G2 : r_od_init vD <= r_index vD).
+      { rewrite IV. destruct MV as (_ & m2 & _). rewrite <- m2, IXD. subst st_r. cbn. lia. }
+      destruct (run_entries cfg vD (skipn pD es)) as [[b' evs']|y].
+      + destruct R as (R1 & _); [lia|exact G2|exact CT|]. cbn [bind fst snd]. eauto.
+      + exfalso. apply R; [lia|exact G2|exact CT]. }
+  destruct MAIN as (st_f'' & evs'' & RF & CF).
+  exists img, st_r, (sync st_f''), evs''.
+  split; [|split; [|split; [|split; [|split]]]].
+  - subst img. rewrite snapshot_ok; [|exact TC|now rewrite c3|rewrite c10, c6; exact SI|left; exact OD].
+    do 2 f_equal; try (unfold after_save; rewrite c4; subst cutter; destruct st_k; reflexivity).
+  - rewrite IM. reflexivity.
+  - rewrite IM. reflexivity.
+  - exact REC.
+  - rewrite (run_tasks_delivery cfg es C F k ts _ D st_r SYr IXr) by lia.
+    rewrite firstn_all2 by (rewrite skipn_length; lia). unfold run_sync. rewrite RF. reflexivity.
+  - destruct (obs_core_eq _ _ CF) as [O1 O2]. rewrite obs_sync. split; [now symmetry|].
+    replace (r_od (sync st_f'')) with (r_od st_f'') by (destruct st_f''; reflexivity). now symmetry.
+Qed.
+
+End RsmProofs.
